@@ -14,7 +14,9 @@ def run(ctx):
             ("TestVerif_C01_Exhaustive", {"VERIF_DOCLEN": ctx.pick(4, 5), "VERIF_DETAIL": 0}),
             # match-dense corpora with single-atom queries (literals on different lines, multi-line
             # regexps, word boundaries): the document set is checked here, the ranges in C02
-            ("TestVerif_C02_Dense", {"VERIF_CORPORA": ctx.pick(12, 150), "VERIF_DETAIL": 0})]
+            ("TestVerif_C02_Dense", {"VERIF_CORPORA": ctx.pick(12, 150), "VERIF_DETAIL": 0}),
+            # one shard with tens of thousands of distinct trigrams (multi-bucket, multi-level b-tree)
+            ("TestVerif_C01_Wide", {"VERIF_CORPORA": ctx.pick(1, 3), "VERIF_DETAIL": 0})]
 
     def nontrivial(e):
         return 0 < len(e["files"])
